@@ -130,7 +130,9 @@ func ruleBISON(c *Ctx) {
 			for _, b := range g.Blocks {
 				for _, ins := range b.Instrs {
 					if r, ok := ins.(*ssa.Return); ok && len(r.Results) == 1 && strings.HasPrefix(vpath(r.Results[0]), "syntax.Expr.String(e") {
-						if hasCond(governing(b), func(p string, pol bool) bool { return pol && strings.HasSuffix(p, fmt.Sprintf("== %d)", mustEnum(c, "syntax", "Reference"))) }) {
+						if hasCond(governing(b), func(p string, pol bool) bool {
+							return pol && strings.HasSuffix(p, fmt.Sprintf("== %d)", mustEnum(c, "syntax", "Reference")))
+						}) {
 							okRef = true
 						}
 					}
